@@ -9,11 +9,15 @@
     * `prefix_iff`    : IP4Prefix accepts ⇔ the text starts with such a group sequence;
     * `prefix_span`, `prefix_indications` : the accepted prefix is a group sequence with the returned bytes, and the
                         verdict tells what follows it: end of input (Ok), a digit (MoreValues), another byte (BadChar).
-  Not proved (oracle only): that the accepted prefix is the LONGEST group sequence at that position (needs the
-  uniqueness of the decomposition); the IP-position flags of GetCallIDSig (C19).
+    * `prefix_is_longest`, `prefix_stops_at_first_bad_byte`, `contains_span_is_longest`,
+      `contains_span_cannot_grow`, `contains_is_leftmost` : the accepted prefix / reported span is the LONGEST group
+      sequence at that position, the byte after it (when there is one and the verdict is not Ok) cannot extend any
+      group sequence whatever follows, and ContainsIP4 reports the leftmost position at which a match starts.
+  Not proved (oracle only): the IP-position flags of GetCallIDSig (C19).
   Model tied to ip_prefix.go by the correspondence check (functions `ip4prefix`, `containsip4`).
 -/
 import Sipsp.Proofs.IP4
+import Sipsp.Proofs.IP4Longest
 
 namespace Sipsp.C20
 open Sipsp
@@ -79,6 +83,31 @@ theorem prefix_indications (b : Buf) {n : Nat} {e : Err} {ip : Array Nat} (h : i
     exact ⟨c, by simpa using hc, hd⟩
   · obtain ⟨c, hc, hd⟩ := this.2.2.2.2.2 he
     exact ⟨c, by simpa using hc, hd⟩
+
+/-- the accepted length is exactly the maximum: `take n` is a group sequence with the returned bytes, and no prefix
+    of the text that is a group sequence is longer -/
+theorem prefix_is_longest (b : Buf) {n : Nat} {e : Err} {ip : Array Nat} (h : ip4Prefix b = (true, n, e, ip)) :
+    (n ≤ b.size ∧ IsIP4 (b.toList.take n) ip[0]! ip[1]! ip[2]! ip[3]!) ∧
+      ∀ m, m ≤ b.size → (∃ a0 a1 a2 a3, IsIP4 (b.toList.take m) a0 a1 a2 a3) → m ≤ n := ip4Prefix_is_max b h
+
+/-- "stops at the first byte that cannot extend it": with a verdict other than Ok, the accepted bytes followed by the
+    next byte do not begin any group sequence, whatever is appended -/
+theorem prefix_stops_at_first_bad_byte (b : Buf) {n : Nat} {e : Err} {ip : Array Nat}
+    (h : ip4Prefix b = (true, n, e, ip)) (he : e ≠ .ok) (u : List UInt8) (a0 a1 a2 a3 : Nat) :
+    ¬ IsIP4 (b.toList.take (n + 1) ++ u) a0 a1 a2 a3 := ip4Prefix_stop_byte b h he u a0 a1 a2 a3
+
+theorem contains_span_is_longest (b : Buf) {o n : Nat} {ip : Array Nat} (h : containsIP4 b = some (o, n, ip))
+    (l t : List UInt8) (a0 a1 a2 a3 : Nat) (hl : IsIP4 l a0 a1 a2 a3) (hd : b.toList.drop o = l ++ t) :
+    l.length ≤ n := containsIP4_longest b h l t a0 a1 a2 a3 hl hd
+
+theorem contains_span_cannot_grow (b : Buf) {o n : Nat} {ip : Array Nat} (h : containsIP4 b = some (o, n, ip))
+    (hlt : o + n < b.size) (u : List UInt8) (a0 a1 a2 a3 : Nat) :
+    ¬ IsIP4 ((b.toList.drop o).take (n + 1) ++ u) a0 a1 a2 a3 := containsIP4_stop_byte b h hlt u a0 a1 a2 a3
+
+theorem contains_is_leftmost (b : Buf) {o n : Nat} {ip : Array Nat} (h : containsIP4 b = some (o, n, ip))
+    (p : Nat) (l t : List UInt8) (a0 a1 a2 a3 : Nat) (hl : IsIP4 l a0 a1 a2 a3) (hd : b.toList.drop p = l ++ t) :
+    o ≤ p := containsIP4_leftmost b h p l t a0 a1 a2 a3 hl hd
+
 
 /-! ### non-vacuity -/
 example : ip4Prefix "10.0.255.7".toUTF8.data = (true, 10, .ok, #[10, 0, 255, 7]) := by decide +kernel
